@@ -139,7 +139,9 @@ def gen(rng, n):
             ops.append([k, {"to": rng.choice(["own", "own", "own", "other"]) if cross else "own", "state_of": f, "state": st, "code_of": other if cross else f,
                             "iss": rng.choice([None, "own", "own", "other"]) if cross else rng.choice([None, "own"]),
                             "cid": rng.choice([None, "own", "other"]) if cross else None,
-                            "idt_of": (other if cross and rng.random() < 0.5 else f)}])
+                            "idt_of": (other if cross and rng.random() < 0.5 else f),
+                            # a parameter the response has no business with: the nonce of another flow / of the attacker's choosing
+                            "resp_nonce_of": rng.choice([None, None, other, "attacker"]) if cross else None}])
         elif k == "tokens":
             ops.append(["tokens", {"flow": f, "idt_of": other if cross else f, "idt": rng.random() < 0.9, "drop_nonce": cross and rng.random() < 0.2,
                                    "sub": rng.choice([None, None, "nonce-of", "sub-mallory"]) if cross else None, "sub_of": other,
@@ -203,6 +205,10 @@ def _o2_impl(c):
 def corpus():
     f0 = {"to": "own", "state_of": 0, "state": "own", "code_of": 0, "iss": None, "cid": None, "idt_of": 0}
     return [
+        # an authorization response with an extra nonce parameter, then an ID token carrying that nonce (hybrid flow), then the token response likewise
+        {"t": "hist", "ops": [["begin", 0, "alice", "code id_token"], ["begin", 0, "bob", "code id_token"],
+                              ["authz", dict(f0, resp_nonce_of=1)], ["authz", dict(f0, idt_of=1)],
+                              ["tokens", {"flow": 0, "idt_of": 1, "idt": True, "drop_nonce": False, "sub": None, "sub_of": 1}]]},
         # a token response naming another pending flow's state (same issuer), with that flow's ID token or with this one's
         {"t": "hist", "ops": [["begin", 0, "alice", "code"], ["begin", 0, "bob", "code"], ["authz", f0], ["authz", dict(f0, state_of=1, code_of=1, idt_of=1)],
                               ["tokens", {"flow": 1, "idt_of": 0, "idt": True, "drop_nonce": False, "sub": None, "sub_of": 0, "resp_state_of": 0}],
@@ -250,6 +256,8 @@ def impl(c):
                     resp["iss"] = to if a["iss"] == "own" else [i for i in ISSUERS if i != to][0]
                 if a["cid"]:
                     resp["client_id"] = CID if a["cid"] == "own" else "client_2"
+                if a.get("resp_nonce_of") is not None:
+                    resp["nonce"] = "attacker-chosen-nonce" if a["resp_nonce_of"] == "attacker" else W.flows[a["resp_nonce_of"]]["nonce"]
                 idt = None
                 if fs["rt"] == "code id_token":
                     # hybrid: the issuer the response is delivered for signs an ID token for flow `idt_of`
